@@ -31,6 +31,8 @@ def get_slice(fr, l, r):
                         s_data,
                         metadata=fr.metadata,
                         waterfall=fr.check_waterfall(),
+                        t_start=fr.t_start,
+                        source_name=fr.source_name,
                         seed=fr.rng)
 
     return s_fr
